@@ -15,6 +15,23 @@ from .speceval import str_method
 STATIC = {}
 
 
+def named_set(st, et, member, tag):
+    """a set value as a named characteristic array R with  forall x. R[x] == member(x)  (patterns chosen among the
+    candidate terms that z3 accepts); keeps heap terms free of lambdas and map combinators"""
+    x = z3.Const("x!%s" % tag, sort_of(et))
+    R = z3.Const("%s!%d" % (tag, fresh(INT).t.hash()), z3.ArraySort(sort_of(et), z3.BoolSort()))
+    body = z3.Select(R, x) == member(x)
+    pats = []
+    for cand in [z3.Select(R, x)]:
+        try:
+            z3.ForAll([x], body, patterns=[cand])
+            pats.append(cand)
+        except z3.Z3Exception:
+            pass
+    st.assume(z3.ForAll([x], body, patterns=pats) if pats else z3.ForAll([x], body))
+    return R
+
+
 def static(*names):
     def deco(f):
         for n in names:
@@ -291,7 +308,14 @@ def _set(E, st, args, kw, n):
     r = st.new_ref(SET(hint))
     dom = z3.K(sort_of(hint), z3.BoolVal(False))
     if args:
-        raise Unsupported("set(x)")
+        src = args[0]
+        if src.ty.kind == "set":
+            dom = st.set_get(src)
+        elif is_listlike(src.ty) or src.ty.kind == "seq":
+            sq = ops.as_seq(st, src)
+            dom = named_set(st, hint, lambda x: z3.Contains(sq.t, z3.Unit(x)), "setof") if sq.t is not None else dom
+        else:
+            raise Unsupported("set(%s)" % src.ty)
     st.set_set(r, dom)
     yield st, r
 
@@ -583,6 +607,11 @@ def method(E, st, recv: V, name, args, kw, n):
             v._keys_of = recv
             yield st, v
             return
+        if name == "values" and not args:
+            v = V(Ty("dictvalues"), None)
+            v._values_of = recv
+            yield st, v
+            return
         raise Unsupported("dict.%s (line %d)" % (name, line))
     if k == "set":
         dom = st.set_get(recv)
@@ -606,9 +635,16 @@ def method(E, st, recv: V, name, args, kw, n):
             return
         if name == "union" and len(args) == 1:
             other = args[0]
-            odom = st.dict_get(other)[0] if is_dictlike(other.ty) else ops.set_parts(st, other)
             r = st.new_ref(SET(et))
-            st.set_set(r, z3.Map(z3.Or(z3.Bool("a"), z3.Bool("b")).decl(), dom, odom))
+            if is_listlike(other.ty) or other.ty.kind == "seq":
+                sq = ops.as_seq(st, other)
+                if sq.t is None:
+                    st.set_set(r, dom)
+                else:
+                    st.set_set(r, named_set(st, et, lambda x: z3.Or(z3.Select(dom, x), z3.Contains(sq.t, z3.Unit(x))), "union"))
+            else:
+                odom = st.dict_get(other)[0] if is_dictlike(other.ty) else ops.set_parts(st, other)
+                st.set_set(r, named_set(st, et, lambda x: z3.Or(z3.Select(dom, x), z3.Select(odom, x)), "union"))
             yield st, r
             return
         if name == "intersection":
@@ -619,7 +655,19 @@ def method(E, st, recv: V, name, args, kw, n):
             else:
                 odom = ops.set_parts(st, other)
             r = st.new_ref(SET(et))
-            st.set_set(r, z3.Map(z3.And(z3.Bool("a"), z3.Bool("b")).decl(), dom, odom))
+            # the intersection as a named array with its defining equation (instantiated wherever an element of
+            # either operand is mentioned), rather than a map combinator the quantifier engine cannot see through
+            R = z3.Const("inter!%d" % fresh(INT).t.hash(), z3.ArraySort(sort_of(et), z3.BoolSort()))
+            body = z3.Select(R, x) == z3.And(z3.Select(dom, x), z3.Select(odom, x))
+            pats = []
+            for cand in (z3.Select(R, x), z3.Select(dom, x), z3.Select(odom, x)):
+                try:
+                    z3.ForAll([x], body, patterns=[cand])
+                    pats.append(cand)
+                except z3.Z3Exception:
+                    pass
+            st.assume(z3.ForAll([x], body, patterns=pats) if pats else z3.ForAll([x], body))
+            st.set_set(r, R)
             yield st, r
             return
         raise Unsupported("set.%s" % name)
